@@ -77,6 +77,29 @@ FIXED = [
 ]
 
 
+STRUCTURAL = {
+    "forest": ["S"],
+    "de_moor": ["max_useful_life", "lead_time", "max_order_quantity", "max_demand", "issue_policy"],
+    "hendrix": ["max_useful_life", "max_order_quantity_a", "max_order_quantity_b"],
+    "mirjalili": ["max_useful_life", "max_order_quantity", "max_demand"],
+}
+
+
+def sibling(rng, name, p, cap):
+    """Same structure (spaces, shapes), freshly drawn cost / distribution parameters."""
+    q = draw(rng, name, 10 ** 9)
+    for k in STRUCTURAL[name]:
+        if k in p:
+            q[k] = p[k]
+        else:
+            q.pop(k, None)
+    if name == "mirjalili":
+        m = p["max_useful_life"]
+        q["useful_life_at_arrival_distribution_c_0"] = [_r(rng, -3, 3) for _ in range(m - 1)]
+        q["useful_life_at_arrival_distribution_c_1"] = [_r(rng, -1, 1) for _ in range(m - 1)]
+    return q
+
+
 def cases(seed, tier, salt):
     rng = np.random.default_rng([seed, 1316])     # same parameterisations for C13-C16 of one seed
     n = 24 if tier == "quick" else 110
@@ -86,5 +109,10 @@ def cases(seed, tier, salt):
         for nm in ("forest", "de_moor", "hendrix", "mirjalili"):
             if nm == "forest" and i % 3:
                 continue
-            out.append(dict(name=nm, params=draw(rng, nm, cap), devices=1))
+            p = draw(rng, nm, cap)
+            c = dict(name=nm, params=p, devices=1)
+            if i % 3 == 0:
+                full = dict(p)
+                c["siblings"] = [sibling(rng, nm, full, cap) for _ in range(int(rng.integers(1, 3)))]
+            out.append(c)
     return out
